@@ -78,6 +78,7 @@ HEAP_TEXT = ("TLC explores every program over the configured alphabet of the hea
 def c19():
     t = Timer()
     res = runner.Result("C19")
+    runner.apalache_stage(res, "CodeWordApa", "WordsArePairs")      # level M of the 32-bit configuration: a (start, length) pair as one 64-bit word
     cfg = "c19" if Q else "quick"
     for m in ["MC_C01", "MC_C02", "MC_C03", "MC_C04", "MC_C05", "MC_C07", "MC_C08", "MC_C09"]:
         runner.c19_model_stage(res, "ragged", m, cfg)
